@@ -94,3 +94,10 @@ REGISTRY.update({
     "C26": _mc("exhaustive enumeration of all count vectors in {0,1,2,5}^m (m<=5 quick, 7 thorough) x option product; definition oracle (fixed) and brute force over all 2^(m-1) segmentations (Poisson)",
                "Every count vector below the bound x offsets x epochs / penalties x min_counts x min_offset: the fixed helper equals its definition (boundary ties within 4 ulp accept either index); the Poisson helper must return a feasible segmentation within 1e-9 of the brute-force optimum."),
 })
+
+REGISTRY.update({
+    "C22": _mc("explicit-state enumeration of diploid inputs x ALL 2^s phase assignments of the singletons x rescaling; locality oracle on mutation nodes and cross-assignment agreement",
+               "Every bounded ARG with 2 or 4 samples paired into individuals x mutation patterns (<=7 singletons) x every assignment of each singleton to one of its individual's two nodes x rescaling off/on: unphased runs move only singletons and only to the sibling node, phased runs move nothing, and all assignments give the same dates, posteriors and final placement (1e-9).", _META),
+    "C23": _mc("explicit-state enumeration as C22 x match_segregating_sites x intervals; the count array the real rescale step uses is captured by wrapping the module-level reallocate_unphased and compared with an independent per-tree tally plus fitted phase shares",
+               "For every input and phase assignment (s<=5) the per-edge mutation counts that variational_gamma's rescaling step actually uses are recomputed from scratch: all other mutations by direct tally, each unphased singleton contributing q to the edge it is finally placed on and 1-q to its sibling's edge; other edges and all spans unchanged."),
+})
